@@ -79,7 +79,7 @@ func selectUnits(eng *Engine) []*Contract {
 	sort.Strings(dirs)
 	for _, d := range dirs {
 		for _, c := range eng.cs.ByPkg[d] {
-			if c.Kind == "spec" {
+			if c.Kind == "spec" && c.Flags["decreases"] == "" {
 				continue
 			}
 			if *flagProp != "" {
